@@ -66,7 +66,7 @@ CLAIMED['C03'] = dict(
    design_ref="5/C03")
 CLAIMED['C04'] = dict(
    category='translation_validation',
-   text="No universal theorem yet (C04_full_statement stated; proved: adjacent exchange flips the parity _should_invert_chirality computes). Decided per input by the extracted same_stereo (tag xor parity of the written neighbour order incl. implicit H and ring-closure digits; marks per bond end) on input vs implementation round trip, over stereo-rich re-spellings (ring digits in any order, before/after branches, marks on chain, branch and ring bonds).",
+   text="Proved for ALL accepted SMILES, tables and flags (C04_chain_marks_faithful_partial; proofs/EncStereo.v): the tree bond into the k-th atom stores the '/' or '\\' written before the k-th atom token, kekulize never touches marks, the atom symbol printed for that atom carries '=' / '#' or - a single bond - exactly that mark, and the decoder's symbol reader gets the same mark back from it; plus the parity lemma behind _should_invert_chirality. Ring-closure marks and tetrahedral tags are NOT theorems: No universal theorem yet (C04_full_statement stated; proved: adjacent exchange flips the parity _should_invert_chirality computes). Decided per input by the extracted same_stereo (tag xor parity of the written neighbour order incl. implicit H and ring-closure digits; marks per bond end) on input vs implementation round trip, over stereo-rich re-spellings (ring digits in any order, before/after branches, marks on chain, branch and ring bonds).",
    technique="extracted Coq stereo-parity oracle as per-input validator; differential correspondence of the encoder model; parity lemma in Coq",
    design_ref="5/C04")
 CLAIMED['C05'] = dict(
